@@ -317,11 +317,23 @@ class Gen:
                 s = rng.choice(cands) if cands else bytes(like).decode()
                 if not cands:
                     ncap = cap
+                if _top and not _noxobj and rng.random() < getattr(self, "strobj_p", 0.15):
+                    # the text carried by a String OBJECT (a box of its own, usually smaller than the one assigned to): the element
+                    # keeps its box, only the text changes
+                    try:
+                        return strval(s.encode("utf8"), ncap), self.ns.xo.String(s)
+                    except Exception:       # noqa
+                        pass
                 return strval(s.encode("utf8"), ncap), s
             if rng.random() < self.capacity_p:      # created from a capacity: reads back as the empty string
                 n = rng.choice([1, 3, 5, 8, 10, 13, 16, 24])
                 return strval(b"", n), n
             s = rng.choice(STRINGS)
+            if not _top and not _noxobj and rng.random() < getattr(self, "strobj_p", 0.15) * 0.5:
+                try:            # a String object (naturally sized box) as the value of a string part at construction
+                    return strval(s.encode("utf8"), natural_cap(len(s.encode()))), self.ns.xo.String(s)
+                except Exception:       # noqa
+                    pass
             return strval(s.encode("utf8"), natural_cap(len(s.encode()))), s
         if k in ("struct", "arr") and not _top and not _noxobj and like is None and self.xobj is not None and rng.random() < self.xobj_p:
             got = self.xobj(tx, b)           # "another xobject" as the value of a nested part: the part becomes a copy of it
